@@ -33,6 +33,9 @@ def m_len(I, args, kw):
         return m_len(I, [v.v], {})
     if isinstance(v, _pyvc().SList):
         return lower_int(v.length) if not isinstance(v.length, int) else v.length
+    from . import symset as _ss
+    if isinstance(v, _ss.SSet):
+        return _ss.length(I, v)
     if isinstance(v, Obj):
         m = I._class_attr(v.cls, '__len__')
         if m is None:
@@ -339,7 +342,15 @@ def m_tuple(I, args, kw):
 def m_set(I, args, kw):
     if not args:
         return set()
-    items = I.iterate_concrete(args[0])
+    src = I.resolve_opt(args[0])
+    from . import symset
+    from .sym import SDict as _SD
+    if isinstance(src, (symset.SSet, _SD)) or \
+            (isinstance(src, _pyvc().SList) and not isinstance(src.length, int)):
+        return symset.from_iterable(I, src)
+    items = I.iterate_concrete(src)
+    if any(isinstance(x, SSeq) for x in items):
+        return symset.lift(I, items)
     for x in items:
         I.hashable(x)
     return set(items)
@@ -654,8 +665,8 @@ def m_hexlify(I, args, kw):
 @model_for(_time.time)
 def m_time(I, args, kw):
     t = fresh("time")
-    I.path.session.assumptions.add("time.time() returns a value in [0, 2**62)")
-    I.path.assume(z3.And(t >= 0, t < 2 ** 62))
+    I.path.session.assumptions.add("time.time() returns a value in [0, 2**55) (a clock the C library can convert)")
+    I.path.assume(z3.And(t >= 0, t < 2 ** 55))
     r = Opaque('float', 'time.time()')
     r.fields['int_value'] = SInt(t)
     return r
@@ -707,6 +718,12 @@ def sdict_get(I, d, key):
     kid, key = key_identity(I, key)
     if kid not in d.memo:
         absent = fresh("absent_" + d.name, z3.BoolSort())
+        if d.keyset is not None:
+            from . import symset
+            if isinstance(key, (str, SSeq)) and (isinstance(key, str) or key.kind == 'str'):
+                absent = z3.Not(z3.IsMember(symset.elem_term(key), d.keyset))
+            elif not isinstance(key, Opaque):
+                absent = z3.BoolVal(True)         # only strings are keys of this dictionary
         n = len(d.memo)
         vk = d.vkind
         if isinstance(vk, tuple) and vk[0] == 'bykey':
@@ -723,6 +740,11 @@ def native_method_call(I, name, recv, args, kw):
     SL = _pyvc().SList
     recv = I.resolve_opt(recv)
     from .sym import SDict
+    from . import symset as _ss
+    if isinstance(recv, _ss.SSet):
+        return _ss.method(I, recv, name, args, kw)
+    if isinstance(recv, (set, frozenset)) and any(isinstance(a, _ss.SSet) for a in args):
+        return _ss.method(I, _ss.lift(I, recv), name, args, kw)
     if isinstance(recv, SDict):
         if name == 'get':
             r = sdict_get(I, recv, args[0])
@@ -731,13 +753,83 @@ def native_method_call(I, name, recv, args, kw):
                     return args[1]
                 return r.v
             return r
-        if name == 'keys':
+        if name == 'keys' and getattr(recv, 'kkind', None) is None:
             return recv
-        if name in ('update', 'pop', 'clear', 'setdefault'):
-            # contents change in a way the model does not track: forget what was learnt
+        if name == 'pop' and args:
+            # d.pop(k[, default]): the value if present (else the default / KeyError); afterwards k is
+            # absent.  What was learnt about other keys is forgotten (a symbolic key may alias them).
+            ent = sdict_get(I, recv, args[0])
+            kid, key = key_identity(I, args[0])
+            I.path.event('dict.pop', id(recv), recv.name, args[0], [])
+            recv.version = getattr(recv, 'version', 0) + 1
+            present = not I.path.branch(ent.isnone)
+            recv.freeze_initial()
             recv.memo.clear()
             recv.keys_.clear()
+            recv.memo[kid] = SOpt(z3.BoolVal(True), ent.v)
+            recv.keys_[kid] = key
+            if recv.keyset is not None and isinstance(key, (str, SSeq)):
+                from . import symset
+                recv.keyset = z3.SetDel(recv.keyset, symset.elem_term(key))
+                recv.empty = fresh("empty_" + recv.name, z3.BoolSort())
+                I.path.assume(recv.empty == (recv.keyset == symset.EMPTY))
+            if present:
+                return ent.v
+            if len(args) > 1:
+                return args[1]
+            I.raise_py(KeyError, args[0])
+        if name in ('update', 'pop', 'clear', 'setdefault'):
+            # contents change in a way the model does not track: forget what was learnt
+            # (the change itself is recorded: which dictionary, with what, under which knowledge
+            #  about the presence of the keys written)
+            written = []
+            if name == 'update' and args and isinstance(args[0], (list, tuple)):
+                for pair in args[0]:
+                    if isinstance(pair, tuple) and len(pair) == 2:
+                        ent = recv.memo.get(key_identity(I, pair[0])[0])
+                        written.append((pair[0], pair[1], None if ent is None else ent.isnone))
+            I.path.event('dict.' + name, id(recv), recv.name, args[0] if args else None, written)
+            recv.version = getattr(recv, 'version', 0) + 1
+            recv.freeze_initial()
+            recv.memo.clear()
+            recv.keys_.clear()
+            if recv.keyset is not None:
+                # the key set afterwards is unknown (update, setdefault) or empty (clear)
+                recv.empty = fresh("empty_" + recv.name, z3.BoolSort())
+                recv.enable_keyset(I.path)
+                if name == 'clear':
+                    I.path.assume(recv.empty)
             return None
+        if name in ('items', 'values') and isinstance(recv.vkind, tuple) and recv.vkind[0] == 'bykey':
+            # a dictionary whose value kind depends on the key: an arbitrary entry is (one of the
+            # known keys, a value of that key's kind) or (some other key, an unknown value)
+            n = fresh("n_" + recv.name)
+            I.path.assume(n >= 0)
+            table = recv.vkind[1]
+            keys = sorted(table, key=str)
+
+            def entry(I2, tag, recv=recv, keys=keys, table=table):
+                k = I2.path.choose(len(keys) + 1, "dict-entry-key")
+                if k == len(keys):
+                    key, val = Opaque('str', recv.name + '.other-key', facts={'nonempty'}), Opaque('object', recv.name + '.value')
+                else:
+                    key = keys[k]
+                    val = recv.maker(I2, table[key], "%s[%s]" % (recv.name, key))
+                return (key, val) if name == 'items' else val
+            return _pyvc().SList(recv.name + "." + name, n, entry)
+        if name in ('items', 'values', 'keys') and getattr(recv, 'kkind', None) is not None:
+            # keys of a stated kind, values of the dictionary's value kind: an arbitrary entry
+            n = fresh("n_" + recv.name)
+            I.path.assume(z3.And(n >= 0, z3.Implies(recv.empty, n == 0), z3.Implies(n == 0, recv.empty)))
+
+            def entry2(I2, tag, recv=recv):
+                key = recv.maker(I2, recv.kkind, "%s.key.%s" % (recv.name, tag))
+                ent = sdict_get(I2, recv, key)
+                I2.path.assume(z3.Not(ent.isnone))
+                return (key, ent.v) if name == 'items' else (key if name == 'keys' else ent.v)
+            sl = _pyvc().SList(recv.name + "." + name, n, entry2)
+            sl.of_dict = (recv, name)
+            return sl
         if name in ('items', 'values'):
             n = fresh("n_" + recv.name)
             I.path.assume(n >= 0)
@@ -823,6 +915,12 @@ def native_method_call(I, name, recv, args, kw):
         if name == 'items':
             return list(recv.items())
         if name == 'update':
+            from .sym import SDict as _SD
+            if any(isinstance(I.resolve_opt(a), _SD) for a in args):
+                # bulk update of a concrete dictionary from one with unknown content: recorded; the
+                # concrete dictionary cannot take unknown content in place
+                I.path.event('dict.update', id(recv), 'dict', args[0], [])
+                raise OutOfFragment("dict.update(<dictionary with unknown content>) on a concrete dictionary")
             for a in args:
                 a = I.resolve_opt(a)
                 if isinstance(a, dict):
@@ -984,6 +1082,17 @@ M.lookup_model = lookup_model
 
 @model_for(_time.gmtime, _time.localtime)
 def m_gmtime(I, args, kw):
+    """time.gmtime / localtime(seconds): the C library refuses time stamps whose year does not fit
+    (OverflowError / OSError); modelled as: outside [-2**55, 2**55] the call raises OverflowError."""
+    if args:
+        v = I.resolve_opt(args[0])
+        iv = v.fields.get('int_value') if isinstance(v, Opaque) else v
+        if isinstance(iv, SInt):
+            ok = z3.And(iv.t >= -(2 ** 55), iv.t <= 2 ** 55)
+            if not I.path.is_valid(ok) and not I.path.branch(ok):
+                I.raise_py(OverflowError, "timestamp out of range for platform time_t")
+        elif isinstance(iv, int) and not isinstance(iv, bool) and abs(iv) > 2 ** 55:
+            I.raise_py(OverflowError, "timestamp out of range for platform time_t")
     return Opaque('object', 'struct_time', taint_of(list(args)))
 
 
